@@ -289,7 +289,9 @@ pub fn check_main(args: &[String]) -> i32 {
                 continue;
             }
             let mut cmd = std::process::Command::new(&exe);
-            cmd.args(["worker", "--prop", &prop, "--seed", &seed.to_string(), "--start", &w.to_string(), "--stride", &jobs.to_string(), "--count", &count.to_string(), "--max-wall-s", &max_wall_s.to_string()]);
+            // (a worker restarted after an abort gets what is left of the budget, not a fresh one)
+            let remaining = max_wall_s.saturating_sub(t0.elapsed().as_secs()).max(5);
+            cmd.args(["worker", "--prop", &prop, "--seed", &seed.to_string(), "--start", &w.to_string(), "--stride", &jobs.to_string(), "--count", &count.to_string(), "--max-wall-s", &remaining.to_string()]);
             cmd.args(["--from-k", &from_k.to_string()]);
             if !skip.is_empty() {
                 cmd.args(["--skip", &skip.iter().map(|x| x.to_string()).collect::<Vec<_>>().join(",")]);
